@@ -104,7 +104,7 @@ func main() {
 	nChains := flag.Int("chains", 1, "reference chains")
 	nBlocks := flag.Int("blocks", 8, "blocks per chain")
 	stride := flag.Int("stride", 257, "distance in bytes between crash points in the write-ahead log")
-	bigTxs := flag.Int("bigtxs", 1500, "transfers offered to the large last block of the first chain")
+	bigTxs := flag.Int("bigtxs", 1300, "transfers offered to the large last block of the first chain")
 	outDir := flag.String("outdir", ".", "output directory")
 	_ = flag.String("replay", "", "replay file (cases regenerate deterministically from the seed)")
 	concChild := flag.Bool("concurrent-child", false, "internal: run the concurrent-copies scenario and exit")
@@ -182,8 +182,14 @@ func main() {
 				sendFee = fp.SendFee
 			}
 			var txs [][]byte
-			for i := 0; i < *bigTxs; i++ {
-				k := sim.BLSKey(i % 9)
+			var rich []int // senders that can pay for a few hundred transfers
+			for i := 0; i < 9; i++ {
+				if bal, e := n.C.FSM.GetAccountBalance(crypto.NewAddress(sim.BLSKey(i).Addr)); e == nil && bal > uint64(*bigTxs)*sendFee {
+					rich = append(rich, i)
+				}
+			}
+			for i := 0; i < *bigTxs && len(rich) > 0; i++ {
+				k := sim.BLSKey(rich[i%len(rich)])
 				t, terr := fsm.NewSendTransaction(k.Priv, crypto.NewAddress(sim.BLSKey((i+1)%9).Addr), 1, 1, 1, sendFee, h, fmt.Sprintf("big%d", i))
 				if terr == nil {
 					bz, _ := lib.Marshal(t)
